@@ -1,11 +1,12 @@
 """Slot level correspondence: the hand-written Coq slot models against the real element-moving helpers.
 
-coq/Slots.v, Erase.v, Alias.v, Throw.v and EmplaceGrow.v model the helper functions of include/amc/vectorcommon.hpp (namespace amc::vec)
-on a memory of slots `Out | Raw | Live v | Moved`.  This module ties them to the code by an executable comparison:
+coq/Slots.v, Erase.v, Alias.v, Throw.v, EmplaceGrow.v and ThrowMove.v model the helper functions of include/amc/vectorcommon.hpp
+(namespace amc::vec) on a memory of slots `Out | Raw | Live v | Moved`.  This module ties them to the code by an executable comparison:
 
   * harness/cpp/slotdrv.cpp (ASan + UBSan build, from /repo's working tree) calls the real helpers on a raw buffer of the
     instrumented non trivially relocatable element vf::El<0>, the way insert / erase / resize / assign call them, for every
-    small size / capacity / position / count / throw index, and prints the state of every slot before and after;
+    small size / capacity / position / count / throw index, and prints the state of every slot before and after; the families
+    `*_mt` do the same on vf::El<2>, whose moves are throwing-capable events too (coq/ThrowMove.v: every catch branch is live);
   * the same cases are evaluated INSIDE Coq (`Eval vm_compute`) by the model definitions, from an initial memory that
     is a function of the case parameters;
   * both sides are rendered to the same text (`post=R,L10,M,... | threw= | newsize= | errs=`) and compared line by line.
@@ -24,7 +25,7 @@ from . import common as C
 from . import coqbuild
 
 WORK = os.path.join(C.CACHE, "slotcorr")
-VOS = ["Slots.vo", "Erase.vo", "Alias.vo", "Throw.vo", "EmplaceGrow.vo"]
+VOS = ["Slots.vo", "Erase.vo", "Alias.vo", "Throw.vo", "EmplaceGrow.vo", "ThrowMove.vo"]
 NEW_VALUE = 99          # slotdrv.cpp: kNewValue
 FIRST_VALUE = 10        # slotdrv.cpp: kFirstValue
 MAX_REPORTED = 8
@@ -79,11 +80,36 @@ CASES = {
                               "EmplaceGrow.mv_uninit_n", "EmplaceGrow.catch_grow", "EmplaceGrow.give_back", "EmplaceGrow.relocate_at",
                               "EmplaceGrow.mv_construct", "EmplaceGrow.mv_assign", "Throw.copy_construct", "Throw.destroy_n",
                               "Throw.destroy", "Throw.tick"]),
+    # coq/ThrowMove.v: the same helpers for an element whose moves are throwing-capable events (vf::El<2>)
+    "shift_right1_mt": (("size", "cap", "pos"), True, "KShiftRight1M", "ThrowMove.shift_right1",
+                        ["ThrowMove.move_construct", "ThrowMove.move_assign", "ThrowMove.move_backward", "EmplaceGrow.mv_construct",
+                         "EmplaceGrow.mv_assign", "Throw.destroy", "Throw.tick"]),
+    "shift_right_cnt_mt": (("size", "cap", "pos", "count"), True, "KShiftRightCntM", "ThrowMove.shift_right_cnt",
+                           ["ThrowMove.uninit_move_n", "ThrowMove.uninit_move_loop", "ThrowMove.move_construct", "ThrowMove.move_assign",
+                            "ThrowMove.move_backward", "EmplaceGrow.mv_construct", "EmplaceGrow.mv_assign", "Throw.destroy_n",
+                            "Throw.destroy", "Throw.tick"]),
+    "shift_left_mt": (("size", "cap", "pos"), True, "KShiftLeftM", "ThrowMove.shift_left",
+                      ["ThrowMove.move_assign", "ThrowMove.move_forward", "ThrowMove.lift", "EmplaceGrow.mv_assign", "Throw.destroy",
+                       "Throw.tick"]),
+    "insert_n_mt": (("size", "cap", "pos"), True, "KInsertNM", "ThrowMove.insert_n",
+                    ["ThrowMove.shift_right1", "ThrowMove.shift_left", "ThrowMove.move_construct", "ThrowMove.move_assign",
+                     "ThrowMove.move_backward", "ThrowMove.move_forward", "EmplaceGrow.mv_construct", "EmplaceGrow.mv_assign",
+                     "Throw.copy_assign_alive", "Throw.copy_construct", "Throw.destroy", "Throw.tick"]),
+    "emplace_n_mt": (("size", "cap", "pos", "src", "rv"), True, "KEmplaceNM", "ThrowMove.emplace_n",
+                     ["ThrowMove.construct_arg", "ThrowMove.shift_relocate", "ThrowMove.shift_right1", "ThrowMove.shift_left",
+                      "ThrowMove.relocate_after_shift", "ThrowMove.move_construct", "ThrowMove.move_assign", "ThrowMove.move_backward",
+                      "ThrowMove.move_forward", "EmplaceGrow.mv_construct", "EmplaceGrow.mv_assign", "Throw.copy_construct",
+                      "Throw.destroy", "Throw.tick"]),
+    "erase_mt": (("size", "cap", "first", "last"), True, "KEraseM", "ThrowMove.erase_n",
+                 ["ThrowMove.move_forward", "ThrowMove.move_assign", "ThrowMove.lift", "EmplaceGrow.mv_assign", "Throw.destroy_n",
+                  "Throw.destroy", "Throw.tick"]),
 }
 # the model computes the size the member function sets
-HAS_NEWSIZE = ("insert_cnt", "resize_grow", "emplace_n_th", "emplace_grow_th", "emplace_back_grow_th")
+HAS_NEWSIZE = ("insert_cnt", "resize_grow", "emplace_n_th", "emplace_grow_th", "emplace_back_grow_th", "emplace_n_mt")
 # families whose state is made of segments `a/b/...` (slotdrv.cpp, SLOTDRV.md): block/argument/e  or  old block/argument/e/new block
-COMPOSITE = {"emplace_n_th": 3, "emplace_grow_th": 4, "emplace_back_grow_th": 4}
+COMPOSITE = {"emplace_n_th": 3, "emplace_grow_th": 4, "emplace_back_grow_th": 4, "emplace_n_mt": 3}
+# composite families whose block segment is `cap` slots long (the others: `size`)
+BLOCK_IS_CAP = ("emplace_n_th", "emplace_n_mt")
 
 LINE = re.compile(r"^CASE (\S+) ((?:\w+=\d+ )+)k=(-|\d+) \| pre=(\S+) \| post=(\S+) \| threw=([01]) \| newsize=(-|\d+) \| "
                   r"errs=(\d+) live=(-?\d+)(?: msg=(.*))?$")
@@ -92,6 +118,7 @@ HEAD = re.compile(r"^CASE (\S+) ((?:\w+=\d+ )+)k=(-|\d+) \|")
 COQ_PRELUDE = r"""(* generated by lib/slotcorr.py: evaluates the slot models on the cases the C++ driver ran *)
 From Coq Require Import ZArith List Arith Bool.
 From Amc Require Import Slots Erase Alias Throw EmplaceGrow.
+From Amc Require ThrowMove.
 Import ListNotations.
 Set Printing Depth 1000000.
 Set Printing Width 200.
@@ -163,7 +190,13 @@ Inductive case :=
 | KShiftLeft (size cap pos : nat)
 | KEmplaceN (size cap pos src rv : nat) (th : option nat)
 | KEmplaceGrow (size pos src rv : nat) (th : option nat)
-| KEmplaceBackGrow (size src rv : nat) (th : option nat).
+| KEmplaceBackGrow (size src rv : nat) (th : option nat)
+| KShiftRight1M (size cap pos : nat) (th : option nat)
+| KShiftRightCntM (size cap pos count : nat) (th : option nat)
+| KShiftLeftM (size cap pos : nat) (th : option nat)
+| KInsertNM (size cap pos : nat) (th : option nat)
+| KEmplaceNM (size cap pos src rv : nat) (th : option nat)
+| KEraseM (size cap first last : nat) (th : option nat).
 
 Definition run (c : case) : list Z :=
   match c with
@@ -206,6 +239,20 @@ Definition run (c : case) : list Z :=
       showE (seq 0 size ++ [src; size + 1] ++ seq (size + 4) (EmplaceGrow.next_cap size))
             (EmplaceGrow.emplace_back_grow true (EmplaceGrow.init_lay size size v) th size (size + 1) src (kind rv) (size + 4))
             (Z.of_nat (size + 1)) (Z.of_nat size)
+  (* coq/ThrowMove.v: moves are throwing-capable events; fx = true: the current code (shift_right has its catch) *)
+  | KShiftRight1M size cap pos th => showT cap (ThrowMove.shift_right1 true (initT size cap) th pos (size - pos)) NOSIZE NOSIZE
+  | KShiftRightCntM size cap pos count th =>
+      showT cap (ThrowMove.shift_right_cnt true (initT size cap) th pos (size - pos) count) NOSIZE NOSIZE
+  | KShiftLeftM size cap pos th => showT cap (ThrowMove.shift_left (shifted1T size cap pos) th (pos + 1) (size - pos)) NOSIZE NOSIZE
+  | KInsertNM size cap pos th => showT cap (ThrowMove.insert_n true (initT size cap) th pos (size - pos) v) NOSIZE NOSIZE
+  | KEmplaceNM size cap pos src rv th =>
+      showE (seq 0 cap ++ [src; cap + 1])
+            (ThrowMove.emplace_n true (EmplaceGrow.init_lay size cap v) th pos (size - pos) (cap + 1) src (kind rv))
+            (Z.of_nat (size + 1)) (Z.of_nat size)
+  | KEraseM size cap first last th =>
+      (* erase(first, last) calls erase_n only for a non empty range *)
+      let n := last - first in
+      showT cap (if n =? 0 then Throw.Done (initT size cap) th else ThrowMove.erase_n (initT size cap) th first n (size - last)) NOSIZE NOSIZE
   end.
 """
 ERR_NAMES = {1: "ConstructOverLive", 2: "ReadDead", 3: "AssignDead", 4: "DestroyDead", 5: "OutOfBlock"}
@@ -308,6 +355,14 @@ def expected_bases(max_size, max_extra):
                     for src in list(range(size)) + [cap + 2]:
                         for rv in (0, 1):
                             out.add(("emplace_n_th", size, cap, pos, src, rv))
+                            out.add(("emplace_n_mt", size, cap, pos, src, rv))
+                    out.add(("insert_n_mt", size, cap, pos))
+                if n > 0:
+                    for count in range(1, extra + 1):
+                        out.add(("shift_right_cnt_mt", size, cap, pos, count))
+                    if extra >= 1:
+                        out.add(("shift_right1_mt", size, cap, pos))
+                        out.add(("shift_left_mt", size, cap, pos))
             if extra == 0:
                 for src in list(range(size)) + [size + 2]:
                     for rv in (0, 1):
@@ -317,6 +372,7 @@ def expected_bases(max_size, max_extra):
             for first in range(size + 1):
                 for last in range(first, size + 1):
                     out.add(("erase", size, cap, first, last))
+                    out.add(("erase_mt", size, cap, first, last))
             for count in range(size, cap + 1):
                 out.add(("resize_grow", size, cap, count))
             for count in range(cap + 1):
@@ -334,7 +390,7 @@ def expected_pre(c):
         arg = "L%d" % (FIRST_VALUE + p["src"] if p["src"] < size else NEW_VALUE)
         segs = [",".join(prefix) if prefix else "-", arg, "R"] + (["-"] if COMPOSITE[c.name] == 4 else [])
         return "/".join(segs)
-    if c.name == "shift_left":      # what shift_right(pos, size - pos) leaves: moved-from slot at pos, the suffix one slot further
+    if c.name in ("shift_left", "shift_left_mt"):      # what shift_right(pos, size - pos) leaves: moved-from slot at pos, the suffix one slot further
         pos = p["pos"]
         return ["L%d" % (FIRST_VALUE + i) if i < pos else "M" if i == pos else "L%d" % (FIRST_VALUE + i - 1) if i <= size else "R"
                 for i in range(cap)]
@@ -454,7 +510,7 @@ def slot_text(z):
 
 def composite_text(c, slots):
     """the model's slots [block or old block..., argument, e, new block...] as the driver's composite text"""
-    n = c.params["cap"] if c.name == "emplace_n_th" else c.params["size"]
+    n = c.params["cap"] if c.name in BLOCK_IS_CAP else c.params["size"]
     toks = [{-3: "O"}.get(z, slot_text(z)) for z in slots]
     segs = [",".join(toks[:n]) if n else "-", toks[n], toks[n + 1]]
     if COMPOSITE[c.name] == 4:
@@ -484,7 +540,9 @@ def run(tier="quick"):
            "harness_problems": [], "implementation_anomalies": [], "per_case": {},
            "space": "size 0..%d, capacity size + 0..%d, every position, count 0..%d, every first <= last, every source index, "
                     "every throw index; emplace_n / growing emplace / emplace_back: argument = external object or every own element, as an "
-                    "lvalue and as an rvalue; element type El<0> (not trivially relocatable)" % (max_size, max_extra, max_extra)}
+                    "lvalue and as an rvalue; element type El<0> (not trivially relocatable, noexcept moves); families *_mt: shift_right (both "
+                    "overloads), shift_left, insert_n, emplace_n, erase_n on El<2> (moves are throwing-capable events), every throw index"
+                    % (max_size, max_extra, max_extra)}
 
     def done():
         res["wall_time_s"] = round(time.time() - t_start, 1)
